@@ -124,7 +124,8 @@ Print Assumptions C09_source_decryption_never_panics.
 From V Require Import Deflate GenPreludeDeflate GenDeflate P_GenDeflate.
 Theorem C09_source_decompression_front_end_never_panics :
   forall (inflate : string -> Z -> string * bool) (read_from_bytes : string -> option node * bool) (rt_ok : string -> bool)
-         (um_base : string -> base_response * option err) (um_logout : string -> logout_response * option err),
+         (um_base : XmlTok.charset_reader -> string -> base_response * option err)
+         (um_logout : XmlTok.charset_reader -> string -> logout_response * option err),
   (forall data max_size, exists v, G_parseResponse inflate read_from_bytes rt_ok data max_size = PVal v) /\
   (forall enc, exists v, G_DecodeUnverifiedBaseResponse inflate um_base enc = PVal v) /\
   (forall enc, exists v, G_DecodeUnverifiedLogoutResponse inflate um_logout enc = PVal v) /\
